@@ -215,7 +215,14 @@ def _dfs_task(task):
                 ctx.pending = []
                 m2 = check.step(ctx, copy.deepcopy(model), a)
                 out["transitions"] += 1
-                check.probe(ctx, m2)
+                # probes may open sessions, create helper objects ...: unlike in the BFS (where the state is rebuilt by replay) the recursion
+                # continues from THIS process image, so the probe runs in a snapshot of its own and on a copy of the model
+                d1 = sh.depth
+                sh.snap()
+                try:
+                    check.probe(ctx, copy.deepcopy(m2))
+                finally:
+                    sh.unwind(d1)
                 out["keys"].add(hash(check.key(ctx, m2)))
                 for v in ctx.pending:
                     if len(out["viol"]) < 200:
